@@ -1,6 +1,8 @@
 import HpxVerif.Model.Once
 import HpxVerif.Lemmas.OnceProgLemmas
 
+set_option autoImplicit false   -- an unknown identifier in a statement is an error, never a new variable
+
 /-!
 # C20 — lazy per-depth layers initialise once and safely under concurrent first use
 
